@@ -109,8 +109,10 @@ theorem MainPred.connectBestChain (hP : MainPred P) (s : State) (b : Block) (h :
       · split
         · exact h
         · split
-          · split <;> exact h
-          · exact hP.reorgTo s b _ h
+          · exact h
+          · split
+            · exact h
+            · exact hP.reorgTo s b _ h
 
 theorem MainPred.maybeAcceptBlock (hP : MainPred P) (s : State) (b : Block) (h : P s) :
     P (maybeAcceptBlock s b).1 := by
